@@ -13,5 +13,5 @@ CHECKS["C02"] = dict(
           "A script is non-trivial when at least one crash point lies strictly inside a write/commit/close/delete/gc operation or inside channel creation; distinct by script hash."),
     assumptions=["multi-channel commits and deletes are not atomic across channels; each channel is judged on its own",
                  "interval-persisted auto-commits become durable at writer close (or earlier); earlier durability is accepted"],
-    tests=[dict(name="TestC02", quick=dict(cases=40, shards=4, shrinktime="120s"), thorough=dict(cases=400, shards=16, timeout=3000, shrinktime="300s"))],
+    tests=[dict(name="TestC02", quick=dict(cases=40, shards=8, shrinktime="120s"), thorough=dict(cases=400, shards=16, timeout=3000, shrinktime="300s"))],
 )
